@@ -1,5 +1,6 @@
 """C18 Sleeping islands are frozen and wake on the documented events."""
 import json
+import re
 
 import numpy as np
 
@@ -413,6 +414,67 @@ def event_hits(ev, T, m):
     return hit
 
 
+def flex_split_sleep_abort(m, d, msg):
+    """(suffix, evidence) if the trapped engine error is the known mechanism 'vertex trees of one flex sleep separately, the flex
+    is then treated as one unit' (findings/C18-flex-vertices-sleep-separately-then-abort.md), else (None, reason).
+
+    Required, all on the failing mjData (audit B1: the former test 'model has a flex and the message mentions sleeping' also
+    relabelled missed wake-ups between rigid bodies of flex-bearing scenes):
+      1. the message is flex-named: 'mj_nc: contact N involves sleeping flex F', or 'mj_wakeCollision: contact between sleeping
+         bodies A and B' where A or B is a vertex/node body of a flex F ('involves sleeping geom' is never this finding);
+      2. the dynamic vertex (node) trees of THAT flex have mixed sleep states (some tree_asleep >= 0, some < 0);
+      3. nothing active couples those trees: no stiffness coupling (rigid, dim < 2, or no bending and zero stiffness - the
+         conditions of unionConstraintTrees) and every flex equality (edge / vertex / strain) of F is inactive in eq_active or
+         absent. With an active coupling a mixed state would be a partially woken island - a different violation."""
+    try:
+        nflex = m.n("nflex")
+        vadr, vnum, vbody = m["flex_vertadr"], m["flex_vertnum"], m["flex_vertbodyid"]
+        interp = m["flex_interp"]
+        nadr, nnum, nbody = m["flex_nodeadr"], m["flex_nodenum"], m["flex_nodebodyid"]
+
+        def bodies(f):
+            if int(interp[f]):
+                return [int(b) for b in nbody[int(nadr[f]):int(nadr[f]) + int(nnum[f])]]
+            return [int(b) for b in vbody[int(vadr[f]):int(vadr[f]) + int(vnum[f])]]
+
+        mm = re.match(r"\s*mj_nc: contact \d+ involves sleeping flex (\d+)\s*$", msg)
+        if mm:
+            f, suffix = int(mm.group(1)), "contact-involves-sleeping-flex"
+        else:
+            mm = re.match(r"\s*mj_wakeCollision: contact between sleeping bodies (\d+) and (\d+)\s*$", msg)
+            if not mm:
+                return None, "message does not name a flex or two sleeping bodies"
+            pair = {int(mm.group(1)), int(mm.group(2))}
+            fs = [f for f in range(nflex) if pair & set(bodies(f))]
+            if len(fs) != 1:
+                return None, "bodies %s belong to %d flexes" % (sorted(pair), len(fs))
+            f, suffix = fs[0], "contact-between-sleeping-bodies"
+        if not 0 <= f < nflex:
+            return None, "flex id out of range"
+        tid = m["body_treeid"]
+        trees = sorted(set(int(tid[b]) for b in bodies(f) if int(tid[b]) >= 0))
+        ta = d["tree_asleep"]
+        asleep = [t for t in trees if int(ta[t]) >= 0]
+        awake = [t for t in trees if int(ta[t]) < 0]
+        if not asleep or not awake:
+            return None, "flex %d trees %s do not have mixed sleep states" % (f, trees)
+        stiff = False
+        if not int(m["flex_rigid"][f]) and int(m["flex_dim"][f]) >= 2:
+            sadr = int(m["flex_stiffnessadr"][f])
+            if int(m["flex_bendingadr"][f]) >= 0 or (sadr >= 0 and float(m["flex_stiffness"].ravel()[sadr]) != 0):
+                stiff = True
+        if stiff:
+            return None, "flex %d has active stiffness coupling: mixed sleep states are a partially woken island" % f
+        et, o1 = m["eq_type"], m["eq_obj1id"]
+        act = d["eq_active"]
+        for e in range(m.n("neq")):
+            if int(et[e]) in (int(E.mjEQ_FLEX), int(E.mjEQ_FLEXVERT), int(E.mjEQ_FLEXSTRAIN)) and int(o1[e]) == f and int(act[e]):
+                return None, "flex %d has an active flex equality %d: mixed sleep states are a partially woken island" % (f, e)
+        return suffix, "flex %d: vertex trees asleep %s awake %s, no active stiffness or flex-equality coupling" % (f, asleep, awake)
+    except Exception as ex:                                   # evidence not obtainable => not confirmed
+        return None, "confirmation failed: %r" % (ex,)
+
+
 # ---------------------------------------------------------------------------------------------------------------
 # worker
 
@@ -470,16 +532,20 @@ def worker(c):
         if DESIGNED in s:
             P.count("skipped_designed_error_tendon_equality")
             return
-        if nflex and ("involves sleeping" in s or "between sleeping bodies" in s):
-            # known finding C18-flex-vertices-sleep-separately-then-abort (out/findings): same root cause, two abort sites
-            viol("flex:engine-aborts:" + ("contact-involves-sleeping-flex" if "involves" in s else "contact-between-sleeping-bodies"),
-                 step, error=s[:300])
+        known, why = flex_split_sleep_abort(m, d, s) if nflex else (None, "no flex in the model")
+        if known:
+            # known finding findings/C18-flex-vertices-sleep-separately-then-abort.md (one root cause, two abort sites), confirmed on
+            # the failing mjData: the message names a flex (directly, or through a vertex body of it), the vertex trees of THAT flex
+            # have mixed sleep states and nothing active couples them
+            P.count("flex_split_sleep_abort_confirmed")
+            viol("flex:engine-aborts:" + known, step, error=s[:300], mechanism_check=why)
         elif "involves sleeping" in s:
             # engine_core_constraint.c mj_nc "SHOULD NOT OCCUR": a contact with a tree that is still asleep reached
             # constraint construction, i.e. the tree touched an awake tree and was not woken
-            viol("not-woken:engine-aborts-contact-involves-sleeping-geom", step, error=s[:300])
+            viol("not-woken:engine-aborts-contact-involves-sleeping-" + ("flex" if "sleeping flex" in s else "geom"), step, error=s[:300],
+                 known_mechanism_check=why)
         elif s.startswith(SLEEP_ERR_FUNCS):
-            viol("engine-reported-sleep-inconsistency", step, error=s[:300])
+            viol("engine-reported-sleep-inconsistency", step, error=s[:300], known_mechanism_check=why)
         else:
             P.count("engine_error_skipped")
             P.count("engine_error:" + s.split(":")[0][:40])
